@@ -339,6 +339,48 @@ func runC03(e *core.Env) error {
 		e.Add(core.Case{Op: op, Impl: impl, Oracles: oracles, Nontrivial: true, Key: fmt.Sprintf("c03-prune %d %d", rep, e.Seed), Tags: []string{"prune-then-reorg-within-retained-history", fmt.Sprintf("keep=%d", keep), fmt.Sprintf("depth=%d", depth)}})
 		w.close()
 	}
+	// ---- a reorg whose fork lies BELOW the configured start: block start-1 itself (whose hash is the task's
+	// initial position) and everything the task has indexed are replaced. The unwind deletes every recorded
+	// position and the task begins again from the configured start on the new chain.
+	for rep := 0; rep < e.N(2, 8) && !e.OverBudget(); rep++ {
+		rr := r.Fork()
+		w, err := newWorld(e, transferChain(7, uint64(1+rr.Intn(1000))))
+		if err != nil {
+			return err
+		}
+		root := config.Root{Integrations: []config.Integration{transferIG("iga", "ta", []string{"block_time"}, nil)}}
+		if err := w.setupRoot(&root); err != nil {
+			w.close()
+			return err
+		}
+		start := uint64(3 + rr.Intn(2))
+		t, err := w.addTask("t1", root.Integrations[0], "src1", start, 0, 1+rr.Intn(3), 1+rr.Intn(2))
+		if err != nil {
+			w.close()
+			return err
+		}
+		for k := 0; k < 20 && !w.dead && w.taskTop(t) != w.head(); k++ {
+			w.step(t, noFault)
+		}
+		depth := int(w.head()) - int(start) + 2 + rr.Intn(2) // the fork is at start-2 or below
+		if depth > int(w.head()) {
+			depth = int(w.head())
+		}
+		w.reorg(depth, depth+1+rr.Intn(2))
+		w.grow(1)
+		for k := 0; k < 60 && !w.dead; k++ {
+			if out := w.step(t, noFault); out == "nothing-new" && w.taskTop(t) == w.head() {
+				break
+			}
+		}
+		verdict := "ok"
+		if w.taskTop(t) != w.head() {
+			verdict = fmt.Sprintf("start %d, reorg of depth %d (fork below start-1): stuck at %d, the head is %d", start, depth, w.taskTop(t), w.head())
+		}
+		e.Add(core.Case{Impl: verdict, Spec: "ok", Oracles: []string{w.projOracle(t, start-1)}, Nontrivial: true, Key: fmt.Sprintf("c03-fork-below-start %d %d", rep, e.Seed),
+			Tags: []string{"fork-below-configured-start"}, Detail: map[string]any{"start": start, "depth": depth, "history": strings.Split(strings.Join(w.ops, "\n"), "\n")}})
+		w.close()
+	}
 	// ---- a LARGE batch size while following the head (one recorded position per block), then a reorg
 	// deeper than a few positions: the unwind is bounded by the number of positions (1000), not by blocks
 	for rep := 0; rep < e.N(3, 12) && !e.OverBudget(); rep++ {
